@@ -249,17 +249,17 @@ func (r *Run) openInner() (driver.Conn, error) {
 	case "mem", "":
 		return store.Open("memcache://")
 	case "fs":
-		return store.Open("fscache:///simcache?appname=app")
+		return store.Open("fscache:///simcache?appname=app" + r.fsTimeoutParam())
 	case "fsenc":
 		switch r.Scn.EncVia {
 		case "option":
-			return fscache.Open("app", fscache.WithBaseDir("/simcache"), fscache.WithEncryption(simKeyB64))
+			return fscache.Open("app", fscache.WithBaseDir("/simcache"), fscache.WithEncryption(simKeyB64), fscache.WithUpdateMTime(r.Scn.FsMTime))
 		case "env":
 			simos.Setenv("FSCACHE_ENCRYPT_KEY", simKeyB64)
 			defer simos.Unsetenv("FSCACHE_ENCRYPT_KEY")
-			return store.Open("fscache:///simcache?appname=app&encrypt=on")
+			return store.Open("fscache:///simcache?appname=app&encrypt=on" + r.fsTimeoutParam())
 		default:
-			return store.Open("fscache:///simcache?appname=app&encrypt=aesgcm&encrypt_key=" + simKeyB64)
+			return store.Open("fscache:///simcache?appname=app&encrypt=aesgcm&encrypt_key=" + simKeyB64 + r.fsTimeoutParam())
 		}
 	}
 	return nil, fmt.Errorf("sim: unknown backend %q", r.Scn.Backend)
@@ -933,6 +933,9 @@ func pctCase(s string, upper bool) string {
 
 func snapReq(req *http.Request) ReqSnap {
 	s := ReqSnap{Method: req.Method, Host: req.Host, Header: req.Header.Clone(), Ctx: req.Context()}
+	if s.Method == "" {
+		s.Method = http.MethodGet // net/http: an empty method means GET
+	}
 	if req.URL != nil {
 		s.URL = req.URL.String()
 	}
@@ -1073,7 +1076,7 @@ func (r *Run) exchange(g *kit.Gor, ci, oi int, name string, op *Op) {
 	// it built the first time, whatever the transport may have done to the value in between
 	reuseKey := ""
 	if op.CancelNs == 0 && op.Cond == "" && !op.Poison {
-		reuseKey = fmt.Sprintf("%s|%s|%d|%d|%s|%v", name, method, op.Res, op.Spelling, op.CC, op.Range)
+		reuseKey = fmt.Sprintf("%s|%s|%d|%d|%s|%s|%v", name, method, op.Res, op.Spelling, op.CC, op.CCStyle, op.Range)
 	}
 	var reused *reuseSlot
 	if op.Reuse && reuseKey != "" {
@@ -1107,10 +1110,15 @@ func (r *Run) exchange(g *kit.Gor, ci, oi int, name string, op *Op) {
 		r.Sim.Event(g, "client.badreq", err.Error())
 		return
 	}
+	if op.EmptyMethod && req.Method == http.MethodGet {
+		req.Method = "" // a request value built as a struct literal: legal, means GET
+	}
 	if reused != nil {
 		// headers were set when the value was built
 	} else if op.CC != "" {
-		req.Header.Set("Cache-Control", op.CC)
+		for _, line := range ccStyled(op.CC, op.CCStyle) {
+			req.Header.Add("Cache-Control", line)
+		}
 	}
 	for _, kv := range op.Hdr {
 		if reused == nil {
